@@ -707,8 +707,13 @@ def handle (ss : Slots) (args impl : List String) : Slots × String :=
       -- resolved somewhere in one of them (both resolutions are then outcomes of the model)
       let tie := ((ss.slots.getD a {}).tieScenes.contains sc) || ((ss.slots.getD b {}).tieScenes.contains sc)
       let same := impl.head? == some "SAME"
-      (ss, res true (same || tie) (["compare-runs"] ++ flag (op == "cmpids") "compare-with-ids" ++ flag (!same) "runs-differ" ++ flag tie "tie-in-scene" ++
-        flag (same && (impl.getD 1 "0") != "0") "compared-nonempty") s!"same={same} tie={tie}")
+      -- track ids come from one counter shared by all scenes of a tracker: an exact tie resolved in *another* scene may
+      -- shift the ids issued in this one; the grouping of this scene (the log up to renaming of ids) must still agree
+      let tieElsewhere := !(ss.slots.getD a {}).tieScenes.isEmpty || !(ss.slots.getD b {}).tieScenes.isEmpty
+      let shifted := op == "cmpids" && !same && !tie && tieElsewhere && impl.getD 4 "" == "GSAME"
+      (ss, res true (same || tie || shifted) (["compare-runs"] ++ flag (op == "cmpids") "compare-with-ids" ++ flag (!same) "runs-differ" ++ flag tie "tie-in-scene" ++
+        flag shifted "ids-shifted-by-tie-in-other-scene" ++
+        flag (same && (impl.getD 1 "0") != "0") "compared-nonempty") s!"same={same} tie={tie} shifted={shifted}")
     | _, _, _ => (ss, bad "cmp")
   | _ =>
     let st := ss.slots.getD ss.cur {}
